@@ -266,33 +266,10 @@ def read_str_coding(source):
         newline = "\n"
         CODING_LINE_PATTERN = re.compile(CODING_LINE_PATTERN.decode("ascii"))
     for line in source.split(newline, 2)[:2]:
-        if re.match(CODING_LINE_PATTERN, line):
-            return _find_coding(line)
-    else:
-        return
-
-
-def _find_coding(text):
-    if isinstance(text, str):
-        text = text.encode("utf-8")
-    coding = b"coding"
-    to_chr = chr
-    try:
-        start = text.index(coding) + len(coding)
-        if text[start] not in b"=:":
-            return
-        start += 1
-        while start < len(text) and to_chr(text[start]).isspace():
-            start += 1
-        end = start
-        while end < len(text):
-            c = text[end]
-            if not to_chr(c).isalnum() and c not in b"-_":
-                break
-            end += 1
-        result = text[start:end]
-        if isinstance(result, bytes):
-            result = result.decode("utf-8")
-        return result
-    except ValueError:
-        pass
+        match = CODING_LINE_PATTERN.match(line)
+        if match:
+            coding = match.group(1)
+            if isinstance(coding, bytes):
+                coding = coding.decode("ascii")
+            return coding
+    return None
